@@ -418,6 +418,7 @@ func TestC12(t *testing.T) {
 
 	meshPart(t, rep, env, &evals, &nontrivial)
 	storedRoutes(t, rep, env, &evals, &nontrivial)
+	runC12Sched(t, rep, env)
 
 	rep.Add(evals, nontrivial, 0, 0)
 	if err := rep.Finish(env); err != nil {
